@@ -58,11 +58,12 @@ Print Assumptions C16_reader_step.
 
 Theorem C16_value :
   forall (K V : Type) (eqd : forall a b : K, {a = b} + {a <> b}) hash idx tag nslots seeds g sh probe nstripes minlen grow_only,
-    xhyps4 idx nstripes minlen nslots probe -> forall len0 todo sched t k, 0 < len0 ->
+    xhyps4 idx nstripes minlen nslots probe -> forall len0 todo sched t k rest, 0 < len0 ->
     let xrun := @xrun K V eqd hash idx tag nslots seeds g sh probe nstripes minlen grow_only in
     let s := fst (xrun (xinit nslots seeds nstripes len0 todo) sched) in
-    g_pc s t = PL_Table k LPlain ->
-    exists m o, m <= rd_bound hash idx tag nslots probe nstripes s (PL_Table k LPlain)
+    (* t is idle and its next call is Load k; everybody else is wherever the schedule left them *)
+    g_pc s t = PIdle -> g_todo s t = XLoad k :: rest ->
+    exists m o, m <= rd_bound hash idx tag nslots probe nstripes (invoked s t (XLoad k) rest) (PL_Table k LPlain)
       /\ g_pc (fst (xrun s (repeat t m))) t = PIdle
       /\ In (XRes t (res_of o)) (snd (xrun s (repeat t m)))
       /\ (forall v, o = Some v <-> vis hash idx (tab_at nslots nstripes s (g_cur s)) k v)
@@ -96,4 +97,15 @@ Definition ex_run16 : @xstate nat nat :=
 Example C16_nonvacuous :
   (exists cx, g_pc ex_run16 0 = PW_ChkTab cx 0) /\ reader_pc (g_pc ex_run16 1) = true.
 Proof. split; [eexists; vm_compute; reflexivity | vm_compute; reflexivity]. Qed.
+
+(* ... and for C16_value: the same writer parked, the reader idle before its Load *)
+Definition ex_run16v : @xstate nat nat :=
+  fst (@xrun nat nat Nat.eq_dec (fun k _ => N.of_nat k) (fun h len => N.to_nat h mod len) (fun h => h) 2 (fun _ => 0%N)
+             (fun _ _ => false) (fun _ _ => false) (fun _ _ => []) (fun _ => 1) 1 false
+             (xinit 2 (fun _ => 0%N) (fun _ => 1) 1
+                    (fun t => if Nat.eqb t 0 then [XCompute 7 (fun _ => Some 1) true false true] else [XLoad 7]))
+             [0; 0; 0; 0; 1]).
+Example C16_value_nonvacuous :
+  (exists cx, g_pc ex_run16v 0 = PW_ChkTab cx 0) /\ g_pc ex_run16v 1 = PIdle /\ g_todo ex_run16v 1 = [XLoad 7].
+Proof. split; [eexists; vm_compute; reflexivity | vm_compute; split; reflexivity]. Qed.
 Print Assumptions C16_nonvacuous.
